@@ -648,15 +648,15 @@ theorem zeros_not_cov (n i : Nat) : ¬ covI (zeros n) i := by
 
 section assemble
 variable (st : Stored) (wf : WfStack st) (segs : List Nat) (relabel : Bool) (hnd : segs.Nodup) (k : Nat)
-  (hsub : ∀ s ∈ segs, s ∈ st.segNums) (hbin : AllBinary st) (d : DType)
+  (hsub : ∀ s ∈ segs, s ∈ st.segNums) (hbin : ∀ f ∈ st.frames, f.key = k → f.seg ∈ segs → FrameBinary st.type st.mfv f) (d : DType)
   (hcap : ∀ s ∈ segs, outVal segs relabel s ≤ d.maxVal)
 include wf hnd hsub hbin hcap
 
 theorem rows_frameBinary :
     ∀ r ∈ joinRows st.frames (chanTable segs (remapValues segs true relabel)) k, FrameBinary st.type st.mfv r.1 := by
   intro r hr
-  have := (row_facts st wf segs relabel hnd k r hr).1
-  exact hbin r.1 this
+  obtain ⟨h1, h2, h3, _⟩ := row_facts st wf segs relabel hnd k r hr
+  exact hbin r.1 h1 h2 h3
 
 theorem rows_val_le :
     ∀ r ∈ joinRows st.frames (chanTable segs (remapValues segs true relabel)) k, (r.2 : Int) ≤ d.maxVal := by
@@ -739,7 +739,7 @@ end assemble
 
 section assemble2
 variable (st : Stored) (wf : WfStack st) (segs : List Nat) (relabel : Bool) (hnd : segs.Nodup) (k : Nat)
-  (hsub : ∀ s ∈ segs, s ∈ st.segNums) (hbin : AllBinary st) (d : DType)
+  (hsub : ∀ s ∈ segs, s ∈ st.segNums) (hbin : ∀ f ∈ st.frames, f.key = k → f.seg ∈ segs → FrameBinary st.type st.mfv f) (d : DType)
   (hcap : ∀ s ∈ segs, outVal segs relabel s ≤ d.maxVal)
 include wf hnd hsub hbin hcap
 
@@ -820,7 +820,7 @@ theorem stackRead_combined_head (st : Stored) (rq : Req) (d : DType) (hc : rq.co
   | ok v => rfl
 
 theorem stackRead_combined_ok (st : Stored) (rq : Req) (d : DType) (wf : WfStack st) (hc : rq.combine = true)
-    (hnd : rq.segs.Nodup) (hsub : ∀ s ∈ rq.segs, s ∈ st.segNums) (hbin : AllBinary st)
+    (hnd : rq.segs.Nodup) (hsub : ∀ s ∈ rq.segs, s ∈ st.segNums) (hbin : UsedBinary st rq.keys rq.segs)
     (hfr : st.type = .fractional → rq.rescale = true) (hcap : ceiling st rq ≤ d.maxVal)
     (hno : rq.skipOverlap = true ∨ ∀ k ∈ rq.keys, NoOverlap st rq.segs k) :
     stackRead st rq d false =
@@ -831,23 +831,23 @@ theorem stackRead_combined_ok (st : Stored) (rq : Req) (d : DType) (wf : WfStack
   rw [mapM_ok _ (fun k => maxFold (absRows st rq.segs rq.relabel k) (zeros st.npix))]
   · rfl
   · intro k hk
-    apply combineRow_ok st wf rq.segs rq.relabel hnd k hsub hbin d hcapV
+    apply combineRow_ok st wf rq.segs rq.relabel hnd k hsub (fun f hf hfk hs => hbin f hf (hfk ▸ hk) hs) d hcapV
     rcases hno with h | h
     · exact Or.inl h
     · exact Or.inr (h k hk)
 
 theorem stackRead_combined_overlap (st : Stored) (rq : Req) (d : DType) (wf : WfStack st) (hc : rq.combine = true)
-    (hnd : rq.segs.Nodup) (hsub : ∀ s ∈ rq.segs, s ∈ st.segNums) (hbin : AllBinary st)
+    (hnd : rq.segs.Nodup) (hsub : ∀ s ∈ rq.segs, s ∈ st.segNums) (hbin : UsedBinary st rq.keys rq.segs)
     (hfr : st.type = .fractional → rq.rescale = true) (hcap : ceiling st rq ≤ d.maxVal)
     (hskip : rq.skipOverlap = false) (k : Nat) (hk : k ∈ rq.keys) (hov : ¬ NoOverlap st rq.segs k) :
     stackRead st rq d false = .error .runtime := by
   rw [stackRead_combined_head st rq d hc hnd hfr, hskip]
   have hcapV : ∀ s ∈ rq.segs, outVal rq.segs rq.relabel s ≤ d.maxVal :=
     fun s hs => Int.le_trans (outVal_le_ceiling st rq hc s hs) hcap
-  have hcase : ∀ k', ¬ NoOverlap st rq.segs k' →
+  have hcase : ∀ k', k' ∈ rq.keys → ¬ NoOverlap st rq.segs k' →
       combineRow st.type st.mfv false d st.npix
         (joinRows st.frames (chanTable rq.segs (remapValues rq.segs true rq.relabel)) k') = .error .runtime := by
-    intro k' hov'
+    intro k' hk' hov'
     unfold NoOverlap at hov'
     have : ∃ s₁ ∈ rq.segs, ∃ s₂ ∈ rq.segs, s₁ ≠ s₂ ∧ ∃ i, covers st k' s₁ i ∧ covers st k' s₂ i := by
       apply Classical.byContradiction
@@ -856,15 +856,17 @@ theorem stackRead_combined_overlap (st : Stored) (rq : Req) (d : DType) (wf : Wf
       intro s₁ h1 s₂ h2 hne12 i hcv
       exact hne ⟨s₁, h1, s₂, h2, hne12, i, hcv⟩
     obtain ⟨s₁, h1, s₂, h2, hne12, i, hc1, hc2⟩ := this
-    exact combineRow_overlap st wf rq.segs rq.relabel hnd k' hsub hbin d hcapV s₁ s₂ i h1 h2 hne12 hc1 hc2
+    exact combineRow_overlap st wf rq.segs rq.relabel hnd k' hsub (fun f hf hfk hs => hbin f hf (hfk ▸ hk') hs) d hcapV
+      s₁ s₂ i h1 h2 hne12 hc1 hc2
   rw [mapM_error _ _ .runtime]
   · rfl
-  · intro k' _
+  · intro k' hk'
     by_cases hn : NoOverlap st rq.segs k'
     · left
-      exact ⟨_, combineRow_ok st wf rq.segs rq.relabel hnd k' hsub hbin d hcapV false (Or.inr hn)⟩
-    · right; exact hcase k' hn
-  · exact ⟨k, hk, hcase k hov⟩
+      exact ⟨_, combineRow_ok st wf rq.segs rq.relabel hnd k' hsub (fun f hf hfk hs => hbin f hf (hfk ▸ hk') hs) d hcapV
+        false (Or.inr hn)⟩
+    · right; exact hcase k' hk' hn
+  · exact ⟨k, hk, hcase k hk hov⟩
 
 
 
